@@ -485,6 +485,9 @@ package pubsub
 //@   loop 1 invariant capped: totalUnwantedIds <= gs.params.MaxIDontWantLength && totalUnwantedIds >= 0 && idwStable(gs, p)
 //@   loop 2 invariant capped: totalUnwantedIds <= gs.params.MaxIDontWantLength && totalUnwantedIds >= 0 && idwStable(gs, p)
 //@   at call computeChecksum assert within-cap: totalUnwantedIds <= gs.params.MaxIDontWantLength && totalUnwantedIds >= 1
+//@   loop 1 invariant table: unwanted == nil || (p in gs.unwanted && gs.unwanted[p] == unwanted)
+//@   loop 2 invariant table: unwanted == nil || (p in gs.unwanted && gs.unwanted[p] == unwanted)
+//@   loop 2 step remembered-for-ttl: has(gs.unwanted, p, csum(mid)) && gs.unwanted[p][csum(mid)] == gs.params.IDontWantMessageTTL
 //@   ensures flood-protected: old(gs.peerdontwant[p]) >= old(gs.params.MaxIDontWantMessages) && (ctl != nil && len(old(ctl.Idontwant)) > 0) ==>
 //@        gs.peerdontwant[p] == old(gs.peerdontwant[p]) && calls(computeChecksum) == old(calls(computeChecksum))
 //@   ensures counted: old(gs.peerdontwant[p]) < old(gs.params.MaxIDontWantMessages) && ctl != nil && len(old(ctl.Idontwant)) > 0 ==> gs.peerdontwant[p] == old(gs.peerdontwant[p]) + 1
@@ -563,7 +566,16 @@ package pubsub
 // what every loop of the mesh pass keeps
 //@ spec fn hbStable(gs *GossipSubRouter) bool = sepMesh(gs) && sepBackoff(gs) && validBackoffParams(gs) && gs.direct != nil &&
 //@      gs.mesh == old(gs.mesh) && (forall t string :: (t in gs.mesh) == old(t in gs.mesh) && gs.mesh[t] == old(gs.mesh[t])) &&
-//@      gs.direct == old(gs.direct) && (forall q string :: (q in gs.direct) == old(q in gs.direct)) && gs.score == old(gs.score) && gs.params == old(gs.params)
+//@      gs.direct == old(gs.direct) && (forall q string :: (q in gs.direct) == old(q in gs.direct)) && gs.score == old(gs.score) && gs.params == old(gs.params) && hbSwept(gs)
+// hbSwept: the per-heartbeat housekeeping at the top of heartbeat has run exactly once, and the
+// end-of-heartbeat steps (coalesced GRAFT/PRUNE, flush, history shift) have not run yet.
+//@ spec fn hbSwept(gs *GossipSubRouter) bool = calls((*GossipSubRouter).clearBackoff) == entry(calls((*GossipSubRouter).clearBackoff)) + 1 &&
+//@      calls((*GossipSubRouter).clearIHaveCounters) == entry(calls((*GossipSubRouter).clearIHaveCounters)) + 1 &&
+//@      calls((*GossipSubRouter).clearIDontWantCounters) == entry(calls((*GossipSubRouter).clearIDontWantCounters)) + 1 &&
+//@      calls((*GossipSubRouter).applyIwantPenalties) == entry(calls((*GossipSubRouter).applyIwantPenalties)) + 1 &&
+//@      calls((*GossipSubRouter).sendGraftPrune) == entry(calls((*GossipSubRouter).sendGraftPrune)) &&
+//@      calls((*GossipSubRouter).flush) == entry(calls((*GossipSubRouter).flush)) &&
+//@      calls((*MessageCache).Shift) == entry(calls((*MessageCache).Shift))
 //@ spec fn hbMaps(scores map[peer.ID]float64, tograft map[peer.ID][]string, toprune map[peer.ID][]string, noPX map[peer.ID]bool) bool =
 //@      scores != nil && tograft != nil && toprune != nil && noPX != nil
 //@ spec fn nonNegMembers(peers map[peer.ID]struct{}, scores map[peer.ID]float64) bool = forall q string :: q in peers ==> q in scores && scores[q] >= 0.0
@@ -574,8 +586,15 @@ package pubsub
 // precondition plus the score condition asserted at each call), every negative-score member is
 // pruned without peer exchange, every pruned peer is backed off (prunePeer's contract).
 //@ func (*GossipSubRouter).heartbeat
-//@   property C07 C08 C09
-//@   requires state: sepMesh(gs) && sepBackoff(gs) && sepFanout(gs) && validBackoffParams(gs) && gs.direct != nil
+//@   property C07 C08 C09 C17
+//@   ensures housekeeping-once-per-heartbeat: calls((*GossipSubRouter).clearBackoff) == old(calls((*GossipSubRouter).clearBackoff)) + 1 &&
+//@        calls((*GossipSubRouter).clearIHaveCounters) == old(calls((*GossipSubRouter).clearIHaveCounters)) + 1 &&
+//@        calls((*GossipSubRouter).clearIDontWantCounters) == old(calls((*GossipSubRouter).clearIDontWantCounters)) + 1 &&
+//@        calls((*GossipSubRouter).applyIwantPenalties) == old(calls((*GossipSubRouter).applyIwantPenalties)) + 1
+//@   ensures history-shifted-once: calls((*MessageCache).Shift) == old(calls((*MessageCache).Shift)) + 1 && lastarg((*MessageCache).Shift, 0) == old(gs.mcache)
+//@   ensures control-flushed-once: calls((*GossipSubRouter).sendGraftPrune) == old(calls((*GossipSubRouter).sendGraftPrune)) + 1 &&
+//@        calls((*GossipSubRouter).flush) == old(calls((*GossipSubRouter).flush)) + 1
+//@   requires state: sepMesh(gs) && sepBackoff(gs) && sepFanout(gs) && validBackoffParams(gs) && gs.direct != nil && sepUnwanted(gs)
 //@   requires history: gs.mcache != nil && mcRep(gs.mcache)
 //@   requires gossip-params: gs.p != nil && gs.params.MaxIHaveLength >= 0 && gs.params.Dlazy >= 0 && gs.params.GossipFactor >= 0.0
 //@   noframe
@@ -779,3 +798,96 @@ package pubsub
 //@   at call enqueueGossip assert recipient-eligible: gossipOK(gs, topic, exclude, $arg1)
 //@   at call enqueueGossip assert bounded-advertisement: $arg2 != nil && len($arg2.MessageIDs) <= gs.params.MaxIHaveLength &&
 //@        $arg2.TopicID != nil && deref($arg2.TopicID) == topic
+
+// ---- C07/C08: retried control messages are re-checked against the current mesh ----
+//
+// A GRAFT or PRUNE that could not be queued is kept in gs.control and piggybacked on the next RPC
+// to that peer. piggybackControl drops what has become stale: a GRAFT is re-sent only if the peer
+// is (still) in that topic's mesh, a PRUNE only if it is not; nothing already in the RPC changes
+// and the mesh is not touched.
+//@ spec fn graftTopic(g *pb.ControlGraft) string = ite(g == nil || g.TopicID == nil, "", deref(g.TopicID))
+//@ spec fn pruneTopic(g *pb.ControlPrune) string = ite(g == nil || g.TopicID == nil, "", deref(g.TopicID))
+//@ func (*GossipSubRouter).piggybackControl
+//@   property C07 C08
+//@   requires args: out != nil && ctl != nil
+//@   noframe
+//@   ensures mesh-untouched: gs.mesh == old(gs.mesh) && (forall t string, q string :: has(gs.mesh, t, q) == old(has(gs.mesh, t, q)))
+//@   loop 1 invariant only-current-grafts: forall i int :: 0 <= i && i < len(tograft) ==> has(gs.mesh, graftTopic(tograft[i]), p)
+//@   loop 1 invariant rpc-untouched: (tograft == nil || fresh(tograft)) && (toprune == nil || fresh(toprune)) && out.Control == old(out.Control) &&
+//@        (out.Control != nil ==> out.Control.Graft == old(out.Control.Graft) && out.Control.Prune == old(out.Control.Prune) &&
+//@          (forall i int :: 0 <= i && i < len(out.Control.Graft) ==> out.Control.Graft[i] == old(out.Control.Graft[i])) &&
+//@          (forall i int :: 0 <= i && i < len(out.Control.Prune) ==> out.Control.Prune[i] == old(out.Control.Prune[i])))
+//@   loop 2 invariant rpc-untouched: (tograft == nil || fresh(tograft)) && (toprune == nil || fresh(toprune)) && out.Control == old(out.Control) &&
+//@        (out.Control != nil ==> out.Control.Graft == old(out.Control.Graft) && out.Control.Prune == old(out.Control.Prune) &&
+//@          (forall i int :: 0 <= i && i < len(out.Control.Graft) ==> out.Control.Graft[i] == old(out.Control.Graft[i])) &&
+//@          (forall i int :: 0 <= i && i < len(out.Control.Prune) ==> out.Control.Prune[i] == old(out.Control.Prune[i])))
+//@   loop 2 invariant only-current-grafts: forall i int :: 0 <= i && i < len(tograft) ==> has(gs.mesh, graftTopic(tograft[i]), p)
+//@   loop 2 invariant only-current-prunes: forall i int :: 0 <= i && i < len(toprune) ==> !has(gs.mesh, pruneTopic(toprune[i]), p)
+//@   ensures control-kept: old(out.Control) != nil ==> out.Control == old(out.Control)
+//@   ensures grafts-current: out.Control != nil ==> (forall i int :: ite(old(out.Control) == nil, 0, old(len(out.Control.Graft))) <= i && i < len(out.Control.Graft) ==>
+//@        has(gs.mesh, graftTopic(out.Control.Graft[i]), p))
+//@   ensures prunes-current: out.Control != nil ==> (forall i int :: ite(old(out.Control) == nil, 0, old(len(out.Control.Prune))) <= i && i < len(out.Control.Prune) ==>
+//@        !has(gs.mesh, pruneTopic(out.Control.Prune[i]), p))
+//@   ensures existing-kept: old(out.Control) != nil ==> len(out.Control.Graft) >= old(len(out.Control.Graft)) && len(out.Control.Prune) >= old(len(out.Control.Prune)) &&
+//@        (forall i int :: 0 <= i && i < old(len(out.Control.Graft)) ==> out.Control.Graft[i] == old(out.Control.Graft[i])) &&
+//@        (forall i int :: 0 <= i && i < old(len(out.Control.Prune)) ==> out.Control.Prune[i] == old(out.Control.Prune[i]))
+
+// pushControl: only GRAFT/PRUNE are kept for a retry (gossip is never retried), for that peer only.
+//@ func (*GossipSubRouter).pushControl
+//@   property C07 C08 C17
+//@   requires args: ctl != nil && gs.control != nil
+//@   noframe
+//@   ensures gossip-not-retried: len(ctl.Ihave) == 0 && len(ctl.Iwant) == 0 && len(ctl.Idontwant) == 0
+//@   ensures control-untouched: ctl.Graft == old(ctl.Graft) && ctl.Prune == old(ctl.Prune)
+//@   ensures kept-for-retry: (old(ctl.Graft) != nil || old(ctl.Prune) != nil) ==> p in gs.control && gs.control[p] == ctl
+//@   ensures nothing-to-retry: !(old(ctl.Graft) != nil || old(ctl.Prune) != nil) ==> (p in gs.control) == old(p in gs.control) && gs.control[p] == old(gs.control[p])
+//@   ensures others-untouched: forall q string :: q != p ==> (q in gs.control) == old(q in gs.control) && gs.control[q] == old(gs.control[q])
+
+// ---- C17: IDONTWANT emission ----
+//
+// Preprocess announces IDONTWANT for the messages of a received RPC: a message ID is computed (and
+// hence listed) only for a message whose payload is at least IDontWantMessageThreshold bytes; the
+// IDONTWANT goes - urgently, as an RPC carrying nothing but that one IDONTWANT - only to members
+// of the topic's mesh, never to the peer the messages came from, and only to peers for which the
+// v1.2 IDONTWANT feature test just answered yes.
+//@ func (*GossipSubRouter).Preprocess
+//@   property C17
+//@   requires wf: wfGS(gs) && gs.mesh != nil && (forall i int :: 0 <= i && i < len(msgs) ==> msgs[i] != nil && msgs[i].Message != nil)
+//@   noframe
+//@   at call (*msgIDGenerator).ID assert only-large-messages: $arg1 != nil && $arg1.Message != nil && len($arg1.Message.Data) >= gs.params.IDontWantMessageThreshold
+//@   at call sendRPC assert never-to-sender: $arg1 != from
+//@   at call sendRPC assert mesh-member-only: has(gs.mesh, topic, $arg1)
+//@   at call sendRPC assert speaks-v12: lastret(dyn:feature) && lastarg(dyn:feature, 0) == GossipSubFeatureIdontwant && lastarg(dyn:feature, 1) == gs.peers[$arg1]
+//@   at call sendRPC assert urgent-idontwant-only: $arg3 && $arg2 == lastret(rpcWithControl) && len(lastarg(rpcWithControl, 0)) == 0 && len(lastarg(rpcWithControl, 1)) == 0 &&
+//@        len(lastarg(rpcWithControl, 2)) == 0 && len(lastarg(rpcWithControl, 3)) == 0 && len(lastarg(rpcWithControl, 4)) == 0 && len(lastarg(rpcWithControl, 5)) == 1 &&
+//@        lastarg(rpcWithControl, 5)[0] != nil && lastarg(rpcWithControl, 5)[0].MessageIDs == mids && len(mids) > 0
+
+// ---- C17/C13: IDONTWANTs are forgotten after their TTL ----
+//
+// clearIDontWantCounters (once per heartbeat) empties the per-heartbeat IDONTWANT counters and ages
+// every remembered IDONTWANT by one tick: an entry survives exactly while its remaining TTL is
+// still positive after the decrement, with that decremented TTL; nothing is added.
+//@ spec fn sepUnwanted(gs *GossipSubRouter) bool = gs.unwanted != nil &&
+//@      (forall q string :: q in gs.unwanted ==> gs.unwanted[q] != nil && allocated(gs.unwanted[q])) &&
+//@      (forall q1 string, q2 string :: q1 in gs.unwanted && q2 in gs.unwanted && q1 != q2 ==> gs.unwanted[q1] != gs.unwanted[q2])
+//@ spec fn agedEntry(gs *GossipSubRouter, q string, c checksum) bool =
+//@      has(gs.unwanted, q, c) == (old(has(gs.unwanted, q, c)) && old(gs.unwanted[q][c]) > 1) &&
+//@      (has(gs.unwanted, q, c) ==> gs.unwanted[q][c] == old(gs.unwanted[q][c]) - 1)
+//@ spec fn sameEntry(gs *GossipSubRouter, q string, c checksum) bool =
+//@      has(gs.unwanted, q, c) == old(has(gs.unwanted, q, c)) && (has(gs.unwanted, q, c) ==> gs.unwanted[q][c] == old(gs.unwanted[q][c]))
+//@ func (*GossipSubRouter).clearIDontWantCounters
+//@   property C17 C13
+//@   requires sep: sepUnwanted(gs)
+//@   modifies gs.peerdontwant, map(gs.unwanted), maps(gs.unwanted)
+//@   loop 1 invariant aged: forall q string, c checksum :: $visited[q] ==> agedEntry(gs, q, c)
+//@   loop 1 invariant pending: forall q string, c checksum :: !$visited[q] ==> sameEntry(gs, q, c)
+//@   loop 1 invariant sep: sepUnwanted(gs) && (forall q string :: q in gs.unwanted ==> old(q in gs.unwanted) && gs.unwanted[q] == old(gs.unwanted[q]))
+//@   loop 2 invariant aged-outer: forall q string, c checksum :: $visited#1[q] && q != p ==> agedEntry(gs, q, c)
+//@   loop 2 invariant pending-outer: forall q string, c checksum :: !$visited#1[q] ==> sameEntry(gs, q, c)
+//@   loop 2 invariant aged-inner: forall c checksum :: $visited[c] ==> agedEntry(gs, p, c)
+//@   loop 2 invariant pending-inner: forall c checksum :: !$visited[c] ==> sameEntry(gs, p, c)
+//@   loop 2 invariant sep: sepUnwanted(gs) && (forall q string :: q in gs.unwanted ==> old(q in gs.unwanted) && gs.unwanted[q] == old(gs.unwanted[q]))
+//@   loop 2 invariant current: p in gs.unwanted && gs.unwanted[p] == mids && $visited#1[p]
+//@   ensures counters-reset: len(gs.peerdontwant) == 0
+//@   ensures aged-by-one-tick: forall q string, c checksum :: agedEntry(gs, q, c)
+//@   ensures sep: sepUnwanted(gs)
